@@ -787,9 +787,8 @@ impl Generatable for Statement
 			{
 				let cname = CString::new(&name.name as &str)?;
 				let vartype = value_type.generate(llvm)?;
-				let loc = unsafe {
-					LLVMBuildAlloca(llvm.builder, vartype, cname.as_ptr())
-				};
+				let loc =
+					build_alloca_in_entry_block(vartype, cname.as_ptr(), llvm);
 				llvm.local_variables.insert(name.resolution_id, loc);
 				let value = value.generate(llvm)?;
 				unsafe {
@@ -805,9 +804,8 @@ impl Generatable for Statement
 			{
 				let cname = CString::new(&name.name as &str)?;
 				let vartype = value_type.generate(llvm)?;
-				let loc = unsafe {
-					LLVMBuildAlloca(llvm.builder, vartype, cname.as_ptr())
-				};
+				let loc =
+					build_alloca_in_entry_block(vartype, cname.as_ptr(), llvm);
 				llvm.local_variables.insert(name.resolution_id, loc);
 				Ok(())
 			}
@@ -2078,13 +2076,41 @@ fn generate_autocoerce(
 	}
 }
 
+/// Reserve stack space of a fixed size in the entry block of the current
+/// function, so that code that is executed repeatedly (a looped block)
+/// does not grow the stack each time it is reached.
+fn build_alloca_in_entry_block(
+	vtype: LLVMTypeRef,
+	name: *const ::libc::c_char,
+	llvm: &mut Generator,
+) -> LLVMValueRef
+{
+	unsafe {
+		let current_block = LLVMGetInsertBlock(llvm.builder);
+		let function = LLVMGetBasicBlockParent(current_block);
+		let entry_block = LLVMGetEntryBasicBlock(function);
+		let first_instruction = LLVMGetFirstInstruction(entry_block);
+		if first_instruction.is_null()
+		{
+			LLVMPositionBuilderAtEnd(llvm.builder, entry_block);
+		}
+		else
+		{
+			LLVMPositionBuilderBefore(llvm.builder, first_instruction);
+		}
+		let alloca = LLVMBuildAlloca(llvm.builder, vtype, name);
+		LLVMPositionBuilderAtEnd(llvm.builder, current_block);
+		alloca
+	}
+}
+
 fn generate_tmp_address(
 	value: LLVMValueRef,
 	vtype: LLVMTypeRef,
 	llvm: &mut Generator,
 ) -> Result<LLVMValueRef, anyhow::Error>
 {
-	let tmp = unsafe { LLVMBuildAlloca(llvm.builder, vtype, cstr!("")) };
+	let tmp = build_alloca_in_entry_block(vtype, cstr!(""), llvm);
 	unsafe {
 		LLVMBuildStore(llvm.builder, value, tmp);
 	}
